@@ -16,7 +16,14 @@ import (
 )
 
 // probe reads the real store's content for sid without side effects.
-func (d *driver) probe(s *spyStore, sid string) map[string]any {
+func (d *driver) probe(s *spyStore, sid string, filter string) map[string]any {
+	onlyDB := -1
+	if f := d.env.fspec[filter]; f != nil {
+		onlyDB = 0
+		if i := strings.Index(f.Store, "#"); i >= 0 {
+			_, _ = fmt.Sscanf(f.Store[i+1:], "%d", &onlyDB)
+		}
+	}
 	out := map[string]any{"known": false, "ex": false, "auth": false, "tok": false}
 	if p := oidc.VerifProbeMemory(s.real, sid); p.Known {
 		out["known"], out["ex"], out["auth"], out["tok"] = true, p.Ex, p.Auth, p.Tok
@@ -26,15 +33,21 @@ func (d *driver) probe(s *spyStore, sid string) map[string]any {
 		return out
 	}
 	if isR, _, _ := oidc.VerifIsRedis(s.real); isR {
-		for _, m := range d.env.mr {
-			if !m.Exists(sid) {
-				continue
+		for _, srv := range d.env.mr {
+			for db := 0; db < 3; db++ {
+				if onlyDB >= 0 && db != onlyDB {
+					continue
+				}
+				m := srv.DB(db)
+				if !m.Exists(sid) {
+					continue
+				}
+				out["known"], out["ex"] = true, true
+				out["auth"] = m.HGet(sid, "state") != ""
+				out["tok"] = m.HGet(sid, "id_token") != ""
+				out["ttl"] = int64(m.TTL(sid) / time.Second)
+				return out
 			}
-			out["known"], out["ex"] = true, true
-			out["auth"] = m.HGet(sid, "state") != ""
-			out["tok"] = m.HGet(sid, "id_token") != ""
-			out["ttl"] = int64(m.TTL(sid) / time.Second)
-			return out
 		}
 		out["known"] = true
 	}
@@ -97,6 +110,20 @@ func shapeRequest(shape string, req *envoy.CheckRequest, cname string) *envoy.Ch
 		h.Headers["cookie"] = cname + "=\x00\xff\xfe\r\n"
 	case "cookieDuplicate":
 		h.Headers["cookie"] = cname + "=one; " + cname + "=two"
+	case "cookieLoneQuote":
+		h.Headers["cookie"] = cname + "=\""
+	case "cookieOtherLoneQuote":
+		h.Headers["cookie"] = "pref=\"; " + h.Headers["cookie"]
+	case "cookieQuoted":
+		h.Headers["cookie"] = cname + "=\"quoted-value\""
+	case "cookieUnbalancedQuote":
+		h.Headers["cookie"] = cname + "=\"abc"
+	case "cookieEmptyQuotes":
+		h.Headers["cookie"] = cname + "=\"\""
+	case "cookieWhitespace":
+		h.Headers["cookie"] = "  \t " + cname + " = \t v ;  ; =x; y= "
+	case "cookieCommaSeparated":
+		h.Headers["cookie"] = "a=b, " + cname + "=v, c=d"
 	case "cookieUpperHeader":
 		h.Headers["Cookie"] = h.Headers["cookie"]
 		delete(h.Headers, "cookie")
